@@ -1,10 +1,10 @@
 (* C03 -- reassembly delivers only length- and CRC-verified PDUs (no silent corruption). Pinned statements only.
    "Most recent first fragment" is read as: the most recent first fragment the receiver accepted (DESIGN.md
-   section 5). The burst clause (CRC-32 detects every burst of up to 32 bits) is NOT proved here: see the note at
-   the end and MANIFEST level text; it is exercised by the fault-injection oracle. *)
+   section 5). The burst clause is c03_burst_detected, from proofs/CrcBurst.v. *)
 Require Import GSE.model.Base GSE.model.Types GSE.model.Ext GSE.model.Encap GSE.model.Memory GSE.model.Decap
   GSE.proofs.Tactics GSE.proofs.BaseLemmas GSE.proofs.MemoryLemmas GSE.proofs.DecapBase GSE.proofs.DecapSpec
-  GSE.proofs.DecapProps GSE.proofs.RoundTrip GSE.proofs.FragTrip GSE.proofs.Isolation GSE.proofs.Verified.
+  GSE.proofs.DecapProps GSE.proofs.RoundTrip GSE.proofs.FragTrip GSE.proofs.Isolation GSE.proofs.Verified GSE.proofs.CrcLemmas GSE.proofs.CrcBurst.
+Require Import GSE.gen.Consts GSE.model.Crc.
 Require Import GSE.props.C05.
 Open Scope N_scope.
 
@@ -106,7 +106,54 @@ Proof.
   cbv zeta in Hrest. destruct Hrest as (Htot & _ & _ & -> & _). cbn [md_pdu_len]. rewrite lenN_app in *. split; [now rewrite Htot|reflexivity].
 Qed.
 
+Lemma rd32_lt l : bytes_ok l -> rd32 l < M32.
+Proof.
+  intro H. unfold rd32. destruct l as [|a [|b [|c [|d [|e t]]]]]; try reflexivity.
+  inversion H as [|? ? Ha H1]; subst. inversion H1 as [|? ? Hb H2]; subst. inversion H2 as [|? ? Hc H3]; subst.
+  inversion H3 as [|? ? Hd _]; subst. change M32 with 4294967296. lia.
+Qed.
+
+(* Burst clause. The receiver checks, at an end fragment, the CRC of the string
+   R = total length | protocol type | label as carried | bytes received for the train (ghost history) ++ own payload
+   against the trailer. If R ++ trailer differs from a CRC-protected string P ++ CRC(P) -- what a sender put on the
+   link -- by a non-zero error pattern confined to 32 consecutive bit positions, no PDU is delivered. *)
+Theorem c03_burst_detected : forall mgr slots maxpdu cs buf s A t p c0 ps P e,
+  Forall dcall_ok cs -> bytes_ok buf ->
+  hrun default_crc mgr (dec_new slots maxpdu, fun _ => None) cs = Ret (s, A) ->
+  head_pkt buf = Some (KEnd, t, p) ->
+  A (hd0 (dropN 2 p) mod max_frag_id (dmem s)) = Some (c0, ps) ->
+  let lab := if c_reuse c0 then [] else label_bytes (c_label c0) in
+  let R := be16 (c_total c0) ++ be16 (c_ptype c0) ++ lab ++ concat ps ++ end_payload p in
+  bytes_ok lab -> bytes_ok (concat ps) ->
+  bytes_ok P ->
+  length (bits (P ++ be32 (crc_spec P 0xFFFFFFFF))) = length e ->
+  bits (R ++ be32 (end_trailer p)) = xorl (bits (P ++ be32 (crc_spec P 0xFFFFFFFF))) e -> burst e ->
+  forall s' b md n, decap default_crc mgr s buf <> Ret (s', inl (DCompleted b md, n)).
+Proof.
+  intros mgr slots maxpdu cs buf s A t p c0 ps P e Hok Hb Hrun Hh HA lab R Hlab Hps HP Hlen Hx Hburst s' b md n Hd.
+  destruct (c03_verified_only default_crc mgr slots maxpdu cs buf s A s' b md n Hok Hb Hrun Hd) as [(t' & p' & E)|(t' & p' & c0' & ps' & E & HA' & _ & Hrest)];
+    rewrite Hh in E; [discriminate|]. injection E as <- <-. rewrite HA in HA'. injection HA' as <- <-.
+  cbv zeta in Hrest. destruct Hrest as (_ & Hcrc & _).
+  destruct (head_pkt_len default_crc mgr _ _ _ _ Hh) as (gl & _ & _ & _ & Ep).
+  assert (Hbp : bytes_ok p) by (rewrite Ep; now apply bytes_ok_takeN).
+  assert (Hpay : bytes_ok (end_payload p)) by (unfold end_payload; apply bytes_ok_takeN, bytes_ok_dropN, Hbp).
+  assert (HT : end_trailer p < M32) by (unfold end_trailer; apply rd32_lt, bytes_ok_dropN, Hbp).
+  fold lab in Hcrc. rewrite default_crc_ok in Hcrc by (auto; apply bytes_ok_app; auto).
+  assert (HR : bytes_ok R) by (subst R; repeat (apply bytes_ok_app; split); auto using be16_ok).
+  refine (burst_detected P (crc_spec P 0xFFFFFFFF) R (end_trailer p) e HP HR HT eq_refl Hlen Hx Hburst _).
+  exact Hcrc.
+Qed.
+
+(* 32 is sharp: the 33-bit pattern of the generator polynomial itself leaves the register at zero *)
+Example c03_burst_33_undetected :
+  run [true; false;false;false;false; false;true;false;false; true;true;false;false; false;false;false;true;
+       false;false;false;true; true;true;false;true; true;false;true;true; false;true;true;true] 0 = 0.
+Proof. vm_compute. reflexivity. Qed.
+Example c03_burst_nonvacuous : burst [false; true; false; true; true; false] /\ run [false; true; false; true; true; false] 0 <> 0.
+Proof. split; [exists 1%nat, [true; false; true; true], 1%nat; repeat split; cbn; lia|vm_compute; discriminate]. Qed.
+
 Print Assumptions c03_history_invariant.
 Print Assumptions c03_verified_only.
 Print Assumptions c03_train_opened.
 Print Assumptions c03_length_exact.
+Print Assumptions c03_burst_detected.
